@@ -69,4 +69,11 @@ def main():
 
 
 if __name__ == '__main__':
-    main()
+    # the interpreter recurses per basic block and per inlined callee: deep call chains (helpers extracted by a refactoring,
+    # loops unrolled over a concrete structure) need more than CPython's default stack
+    import threading
+    sys.setrecursionlimit(200000)
+    threading.stack_size(1 << 29)
+    t = threading.Thread(target=main)
+    t.start()
+    t.join()
